@@ -991,6 +991,85 @@ func (w *world) doReport(slot int, report []vrec, kind string, ask bool) {
 	w.o.Op(fmt.Sprintf("A %d %d %d%s", slot, a, len(report), triples(report)), observe(w.o, w.step, w.slots[slot], ask, status, nil))
 }
 
+// ---- a set with given priorities (as one loaded from storage: &ValidatorSet{Validators: ...}, no proposer
+// recorded, nothing cached): the way to put the priorities exactly on the boundaries of the window rule
+func (w *world) doRaw(slot int, rs []vrec, ask bool) {
+	w.step++
+	w.slots[slot] = &types.ValidatorSet{Validators: mkVals(rs)}
+	w.note("raw", "ok")
+	a := 0
+	if ask {
+		a = 1
+	}
+	w.isolate(slot)
+	w.o.Op(fmt.Sprintf("S %d %d %d%s", slot, a, len(rs), triples(rs)), observe(w.o, w.step, w.slots[slot], ask, "ok", nil))
+}
+
+// genRaw: 2..6 validators whose priority spread sits on / next to a multiple of the window 2T (the
+// ceil(spread / 2T) divisor changes there), with negative odd values (division toward zero) and a
+// negative, non-divisible sum (floor average)
+func (w *world) genRaw() []vrec {
+	r := w.r
+	n := 2 + r.Intn(5)
+	rs := make([]vrec, n)
+	perm := r.Perm(16)
+	T := int64(0)
+	for i := range rs {
+		var p int64
+		switch r.Pick(3, 2, 1) {
+		case 0:
+			p = int64(1 + r.Intn(9))
+		case 1:
+			p = int64(1 + r.Intn(100000))
+		default:
+			p = int64(1)<<40 + int64(r.Intn(1000))
+		}
+		rs[i] = vrec{uint64(perm[i] + 1), p, 0}
+		T += p
+	}
+	W := 2 * T
+	m := int64(1 + r.Intn(5))
+	d := m*W + []int64{-1, 0, 0, 1, 1}[r.Intn(5)]
+	if r.Chance(1, 6) {
+		d = W + int64(r.Intn(int(min64(4*W, 1<<30))))
+	}
+	if d < 0 {
+		d = 0
+	}
+	lo := -int64(r.Intn(int(min64(d+1, 1<<30)))) - int64(r.Intn(3))
+	if r.Chance(1, 3) {
+		lo = -d/2 - int64(r.Intn(2))
+	}
+	for i := range rs {
+		switch {
+		case i == 0:
+			rs[i].prio = lo
+		case i == 1:
+			rs[i].prio = lo + d
+		default:
+			rs[i].prio = lo + int64(r.Intn(int(min64(d+1, 1<<30))))
+			if r.Bool() {
+				rs[i].prio = lo + d - int64(r.Intn(int(min64(d+1, 1<<30))))
+			}
+		}
+	}
+	// random order of the two extremes
+	j := r.Intn(n)
+	rs[0], rs[j] = rs[j], rs[0]
+	w.o.Count(fmt.Sprintf("raw.spread-mod.%d", func() int64 {
+		switch d % W {
+		case 0:
+			return 0
+		case 1:
+			return 1
+		case W - 1:
+			return -1
+		}
+		return 2
+	}()))
+	return rs
+}
+
 // ---- dst := src.CopyIncrementProposerPriority(k)
 func (w *world) doCopyInc(src, dst int, k int64, ask bool) {
 	w.step++
@@ -1835,6 +1914,25 @@ func runCase(o *c12Out, r *c12Rand, c int) {
 	w.doNew(0, init, ask())
 	if chainy {
 		w.doGenesis(0, ask())
+	}
+	if !fair && r.Chance(1, 5) {
+		// priorities placed on the boundaries of the window rule, then the calls that renormalise
+		sl := 1 + r.Intn(nSlots-1)
+		w.doRaw(sl, w.genRaw(), r.Chance(1, 4))
+		switch r.Intn(4) {
+		case 0, 1:
+			w.doInc(sl, int64(1+r.Intn(2)), ask())
+		case 2:
+			cur := w.current(sl)
+			v := cur[r.Intn(len(cur))]
+			np := v.power + int64(r.Intn(3)) - 1
+			if np < 1 {
+				np = 1
+			}
+			w.doUpdate(sl, []vrec{{v.id, np, 0}}, "power", ask())
+		case 3:
+			w.doCopyInc(sl, 1+r.Intn(nSlots-1), 1, ask())
+		}
 	}
 	if !fair && r.Chance(1, 10) {
 		// a set assembled by change sets alone (no round run, Proposer unset): priorities of old members
